@@ -33,6 +33,11 @@ func c16BuildTree(root string, which int) {
 		os.Symlink("dir/sub", filepath.Join(root, "link-to-sub")) // its target's parent is not its own directory
 		os.Symlink("nowhere", filepath.Join(root, "dangling"))
 		os.Link(filepath.Join(root, "plain"), filepath.Join(root, "hardlink"))
+		// links that exist but cannot be followed: to itself, in a cycle, through a regular file
+		os.Symlink("loop", filepath.Join(root, "loop"))
+		os.Symlink("cycle-b", filepath.Join(root, "cycle-a"))
+		os.Symlink("cycle-a", filepath.Join(root, "cycle-b"))
+		os.Symlink("plain/x", filepath.Join(root, "through-file"))
 		os.Chmod(filepath.Join(root, "dir/sub"), 0o700)
 	case 1:
 		mk("name with spaces", "a", 0o644)
@@ -402,6 +407,17 @@ func c16DotDot(dotu bool) Scenario {
 			}
 		}
 		gen(nil)
+		// ... and shorter lists over names at which the host's resolution stops although they exist
+		alpha2 := []string{"loop", "cycle-a", "through-file", "dangling", "plain", "dir", "..", "inner"}
+		for _, a := range alpha2 {
+			lists = append(lists, []string{a})
+			for _, b := range alpha2 {
+				lists = append(lists, []string{a, b})
+				for _, c := range alpha2 {
+					lists = append(lists, []string{a, b, c})
+				}
+			}
+		}
 		rootFi, _ := os.Lstat(root)
 		body := func() {
 			h := newUfsH(root, 8216, dotu)
@@ -426,15 +442,18 @@ func c16DotDot(dotu bool) Scenario {
 				var fis []os.FileInfo
 				path := root
 				ok := true
+				stopped := false // the host's resolution stops at an element (there is no such thing, or it cannot be reached)
 				for _, e := range el {
 					path += "/" + e
 					fi, err := os.Lstat(path)
 					if err != nil {
 						ok = false
+						stopped = true
 						break
 					}
 					// '..' above the export stays at the root (checked by C18): skip lists that leave it
-					if rp, err := filepath.EvalSymlinks(path); err != nil || (rp != root && !strings.HasPrefix(rp, root+"/")) {
+					// (a link that cannot be followed is still there: lstat describes it)
+					if rp, err := filepath.EvalSymlinks(path); err == nil && rp != root && !strings.HasPrefix(rp, root+"/") {
 						ok = false
 						break
 					}
@@ -443,6 +462,35 @@ func c16DotDot(dotu bool) Scenario {
 						fi, _ = os.Stat(path)
 					}
 					fis = append(fis, fi)
+				}
+				if !ok && stopped {
+					// a walk goes as far as the host does: an error if that is nowhere, else the qids
+					// of the elements reached, and no new fid
+					res.Evals++
+					res.Nontrivial++
+					r := cl.Rpc(twalk(2, 0, 5, el...))
+					switch {
+					case r == nil:
+						fail("dotdot/no-reply", fmt.Sprintf("no reply to Twalk %v", el))
+					case len(fis) == 0:
+						if r.Type != wire.Rerror {
+							fail("dotdot/first-element-unreachable-not-error", fmt.Sprintf("Twalk %v: the host resolves no element, the reply is %v", el, r))
+						}
+					case r.Type != wire.Rwalk || len(r.Wqid) != len(fis):
+						fail("dotdot/walk-past-where-the-host-stops", fmt.Sprintf("Twalk %v: the host's resolution stops after %d elements (lstat of %q fails), the reply is %v", el, len(fis), strings.TrimPrefix(path, root+"/"), r))
+					default:
+						for i, q := range r.Wqid {
+							if q.Path != fis[i].Sys().(*syscall.Stat_t).Ino {
+								fail("dotdot/qid-mismatch", fmt.Sprintf("Twalk %v: qid %d has path %d, the host resolves element %d (%q) to inode %d", el, i, q.Path, i, el[i], fis[i].Sys().(*syscall.Stat_t).Ino))
+								break
+							}
+						}
+					}
+					if r5 := cl.Rpc(&wire.Msg{Type: wire.Tstat, Tag: 3, Fid: 5}); r5 == nil || r5.Type != wire.Rerror {
+						fail("dotdot/newfid-after-incomplete-walk", fmt.Sprintf("after Twalk %v, which the host resolves only for %d elements, the new fid exists: %v", el, len(fis), r5))
+						cl.Rpc(&wire.Msg{Type: wire.Tclunk, Tag: 3, Fid: 5})
+					}
+					continue
 				}
 				if !ok {
 					continue
